@@ -211,7 +211,10 @@ func (b *expandBody) expandBlocks(schema *hcl.BodySchema, rawBlocks hcl.Blocks, 
 			if forEachVal.IsKnown() {
 				for it := forEachVal.ElementIterator(); it.Next(); {
 					key, value := it.Element()
-					i := b.iteration.MakeChild(spec.iteratorName, key, value)
+					// The iterator's key and value are content of the marked
+					// collection, so they carry its marks wherever they are
+					// used (in particular in labels, which must not be marked).
+					i := b.iteration.MakeChild(spec.iteratorName, key.WithMarks(marks), value.WithMarks(marks))
 
 					block, blockDiags := spec.newBlock(i, b.forEachCtx)
 					diags = append(diags, blockDiags...)
